@@ -49,6 +49,7 @@ type Env struct {
 	postFn    func()
 	pathTag   string
 	tail      bool
+	ownAssume []*Term
 	noSplit   bool
 	fnPkg     string // package of the function under verification (invariants of its types are concrete)
 	forceConcreteInv bool
